@@ -106,13 +106,13 @@ def doWorld (st : Store) (w : World) (op : WOp) : WOut :=
     | .value => .err (valueErr sp)
     | .unmodelled s => .unmodelled s
   let handleOf (f : FId) : Option Nat := match st.fns[f]? with | some (.file h) => some h | _ => none
-  let onFile (f : FId) : WOut :=
+  let onFile (sp : Span) (f : FId) : WOut :=
     match handleOf f with
     | none => (st, w, .unmodelled "not a file")
     | some h =>
       match fileOp w h op with
       | .ok (v, w') => (st, w', .ok (.strict v))
-      | .error e => (st, w, fileErr default e)
+      | .error e => (st, w, fileErr sp e)
   match op with
   | .readLine _ =>
     if w.stdin.isEmpty then (st, w, .ok (.strict .nil))
@@ -133,7 +133,7 @@ def doWorld (st : Store) (w : World) (op : WOp) : WOut :=
           ({ st with fns := st.fns.push (.file h) }, w', .ok (.strict (.fn f)))
         | .error e => (st, w, fileErr sp e)
     | _ => (st, w, .unmodelled "open by file descriptor")
-  | .fclose f | .fread f _ | .fwrite f _ | .ftell f | .fseek f _ _ | .ftrunc f _ => onFile f
+  | .fclose sp f | .fread sp f _ | .fwrite sp f _ | .ftell sp f | .fseek sp f _ _ | .ftrunc sp f _ => onFile sp f
   | .importLit sp lits =>
     if lits.head? == some 5 then
       match loadBuiltinModule sp lits with
@@ -144,14 +144,21 @@ def doWorld (st : Store) (w : World) (op : WOp) : WOut :=
       | .notFound => (st, w, .err (builtinErr .notFound sp))
       | .ambiguous => (st, w, .err (builtinErr .import_ sp))
       | .found path => loadPath sp path
-  | .importPath sp path => loadPath sp (World.normPath path)
+  | .importPath sp path =>
+    if path.contains (Char.ofNat 0) then (st, w, .err (builtinErr .import_ sp))
+    else if World.normPath path == "" && !(path.startsWith "/" || path.startsWith ".") then (st, w, .err (osErr sp 2))
+    else loadPath sp (World.normPath path)
 where
   loadPath (sp : Span) (path : String) : WOut :=
     match w.registry.lookup path with
     | some t => (st, w, .ok (.thunk t none))
     | none =>
       match World.getFile w path with
-      | none => (st, w, .err (osErr sp (if World.isDir w path then 21 else 2)))
+      | none =>
+        let parts := World.pathParts path
+        let prefixIsFile := (List.range parts.length).any (fun k =>
+          k > 0 && (World.getFile w ("/".intercalate (parts.take k))).isSome)
+        (st, w, .err (osErr sp (if World.isDir w path then 21 else if prefixIsFile then 20 else 2)))
       | some bytes =>
         match utf8Decode bytes with
         | none => (st, w, .err (builtinErr .import_ sp))
